@@ -129,13 +129,13 @@ class Outcome:
         return 1 if self.violations else 0
 
 
-def shard_validate(module, cfg_text, items, shards=8, workers=2, timeout=1800, tag="val"):
+def shard_validate(module, cfg_text, items, shards=14, workers=1, timeout=1800, tag="val", heap="2g"):
     """Validate a list of observed transitions with the trace spec `module`.
     Returns list of verdict strings aligned with items ('ok' or the failing clause).
     Every item must receive a verdict: TLC must report len(shard)+1 distinct states."""
     if not items:
         return []
-    shards = max(1, min(shards, (len(items) + 199) // 200))
+    shards = max(1, min(shards, (len(items) + 99) // 100))
     os.makedirs(BUILD, exist_ok=True)
     chunks = [items[s::shards] for s in range(shards)]
     idx = [list(range(len(items)))[s::shards] for s in range(shards)]
@@ -146,7 +146,7 @@ def shard_validate(module, cfg_text, items, shards=8, workers=2, timeout=1800, t
         with open(path, "w") as fh:
             json.dump(chunks[s], fh)
         try:
-            res = run_tlc(module, cfg_text, workers=workers, timeout=timeout, env={"TRACE_FILE": path}, tag=tag, heap="3g", gcthreads=2)
+            res = run_tlc(module, cfg_text, workers=workers, timeout=timeout, env={"TRACE_FILE": path}, tag=tag, heap=heap, gcthreads=1)   # many small serial-GC JVMs: measured 4x faster here than parallel GC / big heaps
         finally:
             os.unlink(path)
         if res.error:
